@@ -5,8 +5,8 @@
 (*                                                                          *)
 (* A token is a record [t |-> kind, v |-> payload string].  Kinds:          *)
 (*   keywords   "register" "let" "map" "from" "usepulses" "macro" "loop"    *)
-(*              "subcircuit" "import" "as"                                  *)
-(*   values     "ID" "DOTID" "INT" "NUM"                                    *)
+(*              "subcircuit" "import" "as" "branch"                         *)
+(*   values     "ID" "DOTID" "INT" "NUM" "BININT" (payload: its value)      *)
 (*   punctuation "{" "}" "<" ">" "[" "]" ":" ";" "|" "*" ","                *)
 (*   layout     "NL" (one or more newlines), "LC" (line comment, must be    *)
 (*              followed by NL or end of input), "BC" (block comment; the   *)
@@ -41,7 +41,7 @@ AddItem(ps, node) ==
 
 IsSep(ps, tk) == IF Top(ps).kind = "par" THEN tk.t \in ParSepKinds ELSE tk.t \in SepKinds
 Closer(ps) == CASE Top(ps).kind = "par" -> ">"
-                [] Top(ps).kind \in {"seq", "sub"} -> "}"
+                [] Top(ps).kind \in {"seq", "sub", "branch"} -> "}"
                 [] OTHER -> "EOF"
 
 HeaderKinds == {"register", "let", "map", "usepulses", "import"}
@@ -78,8 +78,9 @@ Close(ps) ==
   LET d == Len(ps.stk)
       f == ps.stk[d]
       blk == IF f.kind = "sub" THEN Node("subcircuit_block", "", <<f.wrap>> \o f.items)
+             ELSE IF f.kind = "branch" THEN Node("branch", "", f.items)      \* its items are the case statements
              ELSE Node(BlockName(f.kind), "", f.items)
-      node == IF f.kind = "sub" \/ f.wrap = NoWrap THEN blk
+      node == IF f.kind \in {"sub", "branch"} \/ f.wrap = NoWrap THEN blk
               ELSE [f.wrap EXCEPT !.c = Append(@, blk)]
       p == [ps EXCEPT !.stk = SubSeq(@, 1, d - 1)]
   IN [AddItem(p, node) EXCEPT !.st = "after", !.cur = NoWrap,
@@ -92,7 +93,11 @@ StartStmt(ps, tk) ==
   LET kind == Top(ps).kind
       top == kind = "top"
       inseq == kind \in {"top", "seq", "sub"}
-  IN CASE tk.t = "register" /\ top -> Begin(ps, "reg1", Node("register", "", <<>>))
+  IN IF kind = "branch"           \* inside branch { ... } only case statements:  'bits' : block
+     THEN (IF tk.t = "BININT" THEN Begin(ps, "case1", Node("case", tk.v, <<>>)) ELSE Dead(ps))
+     ELSE
+     CASE tk.t = "branch" /\ top -> Begin(ps, "br1", Node("branch", "", <<>>))
+       [] tk.t = "register" /\ top -> Begin(ps, "reg1", Node("register", "", <<>>))
        [] tk.t = "let" /\ top -> Begin(ps, "let1", Node("let", "", <<>>))
        [] tk.t = "map" /\ top -> Begin(ps, "map1", Node("map", "", <<>>))
        [] tk.t = "from" /\ top -> Begin(ps, "from1", Node("usepulses", "", <<>>))
@@ -180,6 +185,11 @@ Step1(ps, tk) ==
     [] s = "sub1" -> IF LetOrInt(tk) THEN [ps EXCEPT !.cur = NumLeaf(tk), !.st = "sub2"]
                      ELSE IF tk.t = "{" THEN Open(ps, "sub", ps.cur) ELSE Dead(ps)
     [] s = "sub2" -> IF tk.t = "{" THEN Open(ps, "sub", ps.cur) ELSE Dead(ps)
+    \* branch { 'bits' : block ; ... }     (top level only; experimental: grammatical, refused by the builder)
+    [] s = "br1" -> IF tk.t = "{" THEN Open(ps, "branch", NoWrap) ELSE Dead(ps)
+    [] s = "case1" -> IF tk.t = ":" THEN [ps EXCEPT !.st = "case2"] ELSE Dead(ps)
+    [] s = "case2" -> IF tk.t = "{" THEN Open(ps, "seq", ps.cur)
+                      ELSE IF tk.t = "<" THEN Open(ps, "par", ps.cur) ELSE Dead(ps)
 
 \* One token.  Layout tokens other than NL are invisible to the grammar; a line comment must be
 \* terminated by a newline (the renderer guarantees it, the enumeration machine guards it).
@@ -212,6 +222,10 @@ Outcome(toks) ==
   ELSE IF e.static THEN [v |-> "static", bad |-> 0, tree |-> NoWrap, static |-> TRUE]
   ELSE [v |-> "ok", bad |-> 0, tree |-> Node("circuit", "", e.stk[1].items), static |-> FALSE]
 
+\* a well-formed text with a branch statement: the grammar accepts it (parse_to_sexpression returns its tree), the
+\* builder refuses it with a JaqalError unless the experimental switch is on
+Experimental(toks) == LET o == Outcome(toks) IN o.v = "ok" /\ \E j \in DOMAIN o.tree.c : o.tree.c[j].k = "branch"
+
 -------------------------------------------------------------------------------
 (* Spec-level theorems (checked by TLC on every enumerated token string).  *)
 
@@ -219,8 +233,8 @@ Outcome(toks) ==
 RECURSIVE Yield(_)
 RECURSIVE YieldSeq(_)
 YieldSeq(s) == IF s = <<>> THEN 0 ELSE Yield(Head(s)) + YieldSeq(Tail(s))
-Yield(nd) == (IF nd.k \in {"ID", "INT", "NUM", "STAR"} \/ nd.k = "gate" THEN 1 ELSE 0) + YieldSeq(nd.c)
-CountValueToks(toks) == Cardinality({i \in 1..Len(toks) : toks[i].t \in {"ID", "INT", "NUM", "DOTID", "*"}})
+Yield(nd) == (IF nd.k \in {"ID", "INT", "NUM", "STAR"} \/ nd.k \in {"gate", "case"} THEN 1 ELSE 0) + YieldSeq(nd.c)
+CountValueToks(toks) == Cardinality({i \in 1..Len(toks) : toks[i].t \in {"ID", "INT", "NUM", "DOTID", "*", "BININT"}})
 
 \* no statement outside a comment is ever dropped
 NoDropOf(toks) == AtEOF(PS(toks)).verdict = "ok" => Yield(Tree(PS(toks))) = CountValueToks(toks)
